@@ -812,7 +812,7 @@ def thread_fn(prog, f):
     rec = copy.deepcopy(f.rec)
     k = 0
     for _ in range(4):
-        k1 = thread_jumps(rec["mir"]) + dup_small_joins(rec["mir"]) + split_tuples(rec["mir"])
+        k1 = thread_jumps(rec["mir"]) + dup_small_joins(rec["mir"]) + split_tuples(rec["mir"]) + dup_return_joins(rec["mir"])
         k += k1
         if not k1:
             break
@@ -831,7 +831,7 @@ def thread_all(prog):
         rec = copy.deepcopy(f.rec)
         k = 0
         for _ in range(4):
-            k1 = thread_jumps(rec["mir"]) + dup_small_joins(rec["mir"]) + split_tuples(rec["mir"])
+            k1 = thread_jumps(rec["mir"]) + dup_small_joins(rec["mir"]) + split_tuples(rec["mir"]) + dup_return_joins(rec["mir"])
             k += k1
             if not k1:
                 break
